@@ -244,6 +244,7 @@ func runC18(c *Ctx) {
 		cs := genATCase(r, w, cid, o)
 		cs.Locals = cs.Locals[:1]
 		cs.OnlyCare = r.Bool()
+		w := worldFor(w, cs, i)
 		if cs.Locals[0].Explicit && len(cs.Locals[0].Stmts) > 1 && !cs.Schema.Auto && r.Chance(50) {
 			// the application ignores a failed statement (a rejected key-changing UPDATE, a duplicate key)
 			// and commits the rest
